@@ -38,7 +38,7 @@ ToHop(h) == [in |-> h.in, eg |-> h.eg, as |-> h.as, bc |-> Bits(h.bc), ok |-> h.
 ToInf(i) == [c |-> i.c, p |-> i.p, sid |-> Bits(i.sid)]
 ToPkt(j) == [src |-> j.src, dst |-> j.dst, ci |-> j.ci, ch |-> j.ch, sl |-> j.sl, mo |-> j.mo,
              infos |-> [i \in DOMAIN j.infos |-> ToInf(j.infos[i])],
-             hops |-> [i \in DOMAIN j.hops |-> ToHop(j.hops[i])]]
+             hops |-> [i \in (j.hw + 1)..(j.hw + Len(j.hops)) |-> ToHop(j.hops[i - j.hw])]]
 
 NoAt == [as |-> "", scope |-> "none", inif |-> 0, r |-> -1, from |-> -1]
 St0 == [reqDelivered |-> FALSE, repDelivered |-> FALSE, died |-> 0, hopsSeen |-> 0,
@@ -231,6 +231,7 @@ HostErr ==
 Step == /\ l <= Len(Trace)
         /\ l' = l + 1
         /\ IF R.ev = "topo" THEN TopoEv
+           ELSE IF R.ev = "skip" THEN UNCHANGED <<topo, J, leg, k, at, st, failed>>
            ELSE IF R.ev = "reset" THEN Reset
            ELSE IF failed THEN UNCHANGED <<topo, J, leg, k, at, st, failed>>
            ELSE CASE R.ev = "hop" -> Hop
@@ -239,6 +240,7 @@ Step == /\ l <= Len(Trace)
                   [] R.ev = "scmp" -> Scmp
                   [] R.ev = "hosterr" -> HostErr
                   [] R.ev = "stuck" -> Bad("packet-loops")
+                  [] R.ev = "skip" -> UNCHANGED <<topo, J, leg, k, at, st, failed>>
                   [] OTHER -> Bad("no-spec-action:" \o R.ev)
 
 Done == /\ l = Len(Trace) + 1
